@@ -102,6 +102,30 @@ func main() {
 			infra(errors.New("replay needs a file"))
 		}
 		os.Exit(replay(os.Args[2]))
+	case "world":
+		// debugging aid: verif world <template-index> — run a template world in identity order
+		n, err := node.Build(repoDir())
+		if err != nil {
+			infra(err)
+		}
+		defer n.Close()
+		c := gensim.NewCtx(n, seed(), "debug", verifDir())
+		ti, _ := strconv.Atoi(os.Args[2])
+		w := gensim.Templates[ti](c.Rng("debug", 0))
+		h := &gensim.History{World: w, Ops: []gensim.Op{{Kind: "gen", Gen: &gensim.GenSpec{}}}}
+		obs, err := c.Runner.Exec(h)
+		if err != nil {
+			infra(err)
+		}
+		for p, f := range w.Files {
+			fmt.Printf("--- %s\n%s\n", p, f)
+		}
+		fmt.Printf("exit=%d\nstderr=%s\nreach=%v\n", obs[0].Exit, obs[0].Stderr, obs[0].RangeReach())
+		for p, f := range obs[0].Written {
+			fmt.Printf("+++ %s\n%s\n", p, f)
+		}
+		n.Close()
+		os.Exit(0)
 	case "selftest":
 		if len(os.Args) < 3 {
 			infra(errors.New("selftest needs an argument"))
